@@ -915,6 +915,15 @@ def search_cases(chk, thorough):
         streams.append("expr-numparam")
         reqs.append(mk_req(".. | " + e, d, "yaml", "json", False))
         streams.append("expr-numparam")
+    # operators that take a list of keys / indices: lists longer than the container, repeated and absent members, every small container
+    klists = ['[]', '["a"]', '["a", "b"]', '["a", "a", "a"]', '["x", "y", "z"]', '["a", "x", "y", "z"]', '[0]', '[0, 1, 2, 3]', '[5, 5]', '[0, 0, 0]', '[-1, -1]', '["a", 0]']
+    kdocs = ["{}\n", "{a: 1}\n", "{a: 1, b: 2}\n", "{a: 1, b: 2, c: 3}\n", "[]\n", "[1]\n", "[1, 2]\n", "m: {a: 1}\nl: [1]\n"]
+    for op in ("omit", "pick"):
+        for kl in klists:
+            for d in kdocs:
+                for e in ("%s(%s)" % (op, kl), ".m |= %s(%s)" % (op, kl), ".l |= %s(%s)" % (op, kl), ".[] |= %s(%s)" % (op, kl)):
+                    reqs.append(mk_req(e, d, "yaml", "yaml", False))
+                    streams.append("expr-keylists")
     n_fmt = 20000 if thorough else 300
     for fmt in IN_FORMATS:
         for i in range(n_fmt):
